@@ -20,7 +20,13 @@ def sh(cmd, **kw):
 
 def main():
     pid = sys.argv[1]
-    only = set(sys.argv[2:])
+    args = sys.argv[2:]
+    patches = []
+    while "--patch" in args:          # lib/mutants.py <ID> --patch <file> [--patch <file>...]: run these instead
+        i = args.index("--patch")
+        patches.append(os.path.abspath(args[i + 1]))
+        del args[i:i + 2]
+    only = set(args)
     wt = "/tmp/verif-mut-%s-%d" % (pid, os.getpid())
     out = wt + "-out"
     sh("git -C /repo worktree remove --force %s" % wt)
@@ -35,9 +41,9 @@ def main():
     env = dict(os.environ, VERIF_REPO=wt, VERIF_OUT=out)
     bad = 0
     try:
-        diffs = sorted(glob.glob(os.path.join(VERIF, "mutants", pid, "*.diff")))
+        diffs = patches or sorted(glob.glob(os.path.join(VERIF, "mutants", pid, "*.diff")))
         for df in diffs:
-            name = os.path.basename(df)[:-5]
+            name = os.path.basename(df)[:-5] if not patches else os.path.basename(os.path.dirname(df)) + "/" + os.path.basename(df)
             if only and name not in only:
                 continue
             a = sh("git apply --whitespace=nowarn %s || patch -p1 -s < %s" % (df, df), cwd=wt)
@@ -54,7 +60,7 @@ def main():
                 bad += 1
                 print(r.stdout[-1500:])
             sh("git checkout -q -- . && git clean -fdq", cwd=wt)
-        if not only:
+        if not only and not patches:
             r = subprocess.run([os.path.join(VERIF, "check"), pid], env=env, text=True,
                                stdout=subprocess.PIPE, stderr=subprocess.STDOUT, cwd=VERIF)
             okc = r.returncode == 0 and "VIOLATION" not in r.stdout
